@@ -193,6 +193,7 @@ def binArith (op : InfixOp) (s : VMState) (sp : Span) : StepRes :=
     let okKinds : Bool := match op, l.v, r.v with
       | .eq, _, _ => true
       | _, .int _, .int _ => true
+      | .pow, .float _, .float _ => true
       | .pow, _, _ => false
       | .add, .float _, .float _ | .sub, .float _, .float _ | .mul, .float _, .float _
       | .div, .float _, .float _ | .lt, .float _, .float _ | .gt, .float _, .float _
@@ -367,7 +368,14 @@ def step (code : Code) (lim : Limits) (s : VMState) (i : RInstr) (sp : Span) : S
         | _ => .panic "assign target" s
       | none => .next (advance s')    -- writes through a pointer nobody else holds
     | _ => .panic "stack underflow" s
-  | .cast _ _ => .panic "unsupported: cast (see the value model, C12)" s
+  | .cast ty allow =>
+    -- `value.DeepCast`; a failed cast is a catchable exception at the instruction's span
+    match pop1 s with
+    | some (x, s') =>
+      match runM s' (castVal castFuel x.v ty allow "" sp) with
+      | (.ok v, s'') => .next (advance (push1 s'' v))
+      | (.error c, s'') => ctlToRes c s''
+    | none => .panic "stack underflow" s
   | .neg =>
     match pop1 s with
     | some (⟨.int x, _⟩, s') => .next (advance (push1 s' (.int (-x))))
@@ -440,8 +448,20 @@ def step (code : Code) (lim : Limits) (s : VMState) (i : RInstr) (sp : Span) : S
         .next (advance (push1 s'' v org))
       | (.error c, s'') => ctlToRes c s''
     | none => .panic "stack underflow" s
-  | .memberAnyobj _ => .panic "unsupported: -> member access" s
-  | .unwrap => .panic "unsupported: ~> member access" s
+  | .memberAnyobj name =>
+    -- one option is pushed (after fix M3; before it a missing key pushed two values)
+    match pop1 s with
+    | some (x, s') =>
+      match runM s' (memberVal x.v name .arrow sp) with
+      | (.ok v, s'') => .next (advance (push1 s'' v))
+      | (.error c, s'') => ctlToRes c s''
+    | none => .panic "stack underflow" s
+  | .unwrap =>
+    match pop1 s with
+    | some (⟨.opt (some v), _⟩, s') => .next (advance (push1 s' v))
+    | some (⟨.opt none, _⟩, s') => .intr (.throw "Called 'unwrap' on a 'null' option value" sp) s'
+    | some _ => .panic "operand kind" s
+    | none => .panic "stack underflow" s
   | .importI _ _ => .panic "unsupported: host import" s
   | .intoRange incl =>
     match s.stack with
